@@ -9,9 +9,9 @@ from .values import (Ref, NONE, Obj, Unsupported, FuncVal, BoundMethod, ClassVal
 from .eng_core import State, Frame
 
 R = z3.RealSort()
-UF1 = {n: z3.Function(n, R, R) for n in ('sqrt', 'exp', 'log', 'log10', 'sin', 'cos', 'tan', 'erf', 'asin', 'acos',
+UF1 = {n: z3.Function('m_' + n, R, R) for n in ('sqrt', 'exp', 'log', 'log10', 'sin', 'cos', 'tan', 'erf', 'asin', 'acos',
                                           'atan', 'sinh', 'cosh', 'tanh', 'gamma', 'cbrt')}
-UF2 = {n: z3.Function(n, R, R, R) for n in ('atan2', 'fmod', 'hypot', 'copysign')}
+UF2 = {n: z3.Function('m_' + n, R, R, R) for n in ('atan2', 'fmod', 'hypot', 'copysign')}
 
 
 class RangeVal:
@@ -152,7 +152,7 @@ class CallMixin:
             if base.cls:
                 ci, meth = self.tree.lookup_method(base.cls, name)
                 if meth is not None and not getattr(meth, 'declaration_only', False):
-                    ext = self.external_spec(['%s.%s' % (base.cls, name)], fr)
+                    ext = self.external_spec(['%s.%s' % (nm, name) for nm in self.tree.mro(base.cls)], fr)
                     if ext is None or not ext.get('override'):
                         fv = FuncVal(ci.file, ci.name + '.' + name, meth, cls=ci.name)
                         return self.call_function(fv, [base] + list(args), kwargs, st, fr, node, dyn_cls=base.cls)
@@ -401,6 +401,9 @@ class CallMixin:
             if not isinstance(text, str):
                 continue
             st.pc.append(self.spec_term(text, st, frame))
+        params = [p.arg for p in fv.node.args.posonlyargs + fv.node.args.args]
+        recv = env.get('self') if fv.cls else None
+        st.log.append(Event(fv.qualname, recv, [env[p] for p in params if p != 'self' or not fv.cls], {}, result))
         return result
 
     def havoc_field(self, st, fid):
@@ -464,6 +467,12 @@ class CallMixin:
             f = z3.Function('%s_%d' % (fname, len(terms)), *sorts, SORTS[key])
             term = f(*terms) if terms else z3.Const(fname, SORTS[key])
             res = self.wrap(term, rspec)
+            shape = ext.get('shape')
+            if shape and isinstance(res, Obj):
+                st.pc.append(res.ref != NONE)
+                for ax, n in enumerate(shape):
+                    ln = self.arr_len(st, res, ax)
+                    st.pc.append(ln == n if n is not None else ln >= 0)
             for fact in ext.get('facts', []):
                 self.add_fact((fname, str(term), fact), fact_fn(fact, term, terms))
             return res
